@@ -61,13 +61,34 @@ pub fn programs(tier: Tier) -> ProgramSet {
         // the error function is generic over its argument (an associated function taking `impl Into<String>`, a free function
         // taking `S: AsRef<str>`)
         if e.k <= 1 {
-            for f in ["vf_core::MyErr::new_any", "vf_core::my_err_any"] {
+            for f in ["vf_core::MyErr::new_any", "vf_core::my_err_any", "LOWERCASE-TYPE"] {
                 let mut spec = e.spec.clone();
                 spec.parse_err = false;
+                if f == "LOWERCASE-TYPE" {
+                    // an error type whose name starts with a lower-case letter (an alias, as `errno_t` or a primitive would be)
+                    spec.extra_attrs.push("#[strum(parse_err_ty = vf_core::my_err_t, parse_err_fn = vf_core::my_err_any)]".into());
+                    let source = render(&spec);
+                    out.push(Program { idx: 0, label: format!("{} [error type with a lower-case name: my_err_t]", e.label), k: e.k + 1, spec, aux: json!(null), source });
+                    continue;
+                }
                 spec.extra_attrs.push(format!("#[strum(parse_err_ty = vf_core::MyErr, parse_err_fn = {})]", f));
                 let source = render(&spec);
                 out.push(Program { idx: 0, label: format!("{} [error function generic over its argument: {}]", e.label, f), k: e.k + 1, spec, aux: json!(null), source });
             }
+        }
+        // the enum also derives EnumDiscriminants with derive(EnumString) for the generated type: THAT type never declared a custom
+        // error, its FromStr::Err stays strum::ParseError
+        if e.k == 0 {
+            let mut spec = e.spec.clone();
+            spec.parse_err = true;
+            spec.extra_attrs.push("#[derive(strum::EnumDiscriminants)]".into());
+            spec.extra_attrs.push("#[strum_discriminants(derive(strum::EnumString))]".into());
+            let source = format!(
+                "{}#[allow(dead_code)]\nfn _discriminant_error_type() {{\n    let _: fn(&str) -> Result<{n}Discriminants, strum::ParseError> = <{n}Discriminants as core::str::FromStr>::from_str;\n    let _: Option<<{n}Discriminants as core::convert::TryFrom<&str>>::Error> = None::<strum::ParseError>;\n}}\n",
+                render(&spec),
+                n = spec.name
+            );
+            out.push(Program { idx: 0, label: format!("{} [custom error] + EnumDiscriminants with derive(EnumString) on the generated type", e.label), k: 2, spec, aux: json!(null), source });
         }
         // a default variant next to the custom error: every input is accepted, the function must never run
         if e.k <= 1 && e.spec.generics.is_empty() {
